@@ -450,12 +450,58 @@ PreviousBucket(Bucket **current, Bucket *first)
     return result;
 }
 
+#ifdef BTREES_VERIF
+/* Verification hook (compiled in only with -DBTREES_VERIF): a countdown
+ * that makes the n-th allocation routed through BTree_Malloc/BTree_Realloc
+ * fail the way a real out-of-memory condition does.
+ */
+static long verif_alloc_count = 0;      /* allocations seen so far */
+static long verif_alloc_fail_at = 0;    /* 0 = disarmed */
+
+static int
+verif_alloc_should_fail(void)
+{
+    ++verif_alloc_count;
+    if (verif_alloc_fail_at > 0 && verif_alloc_count == verif_alloc_fail_at)
+    {
+        verif_alloc_fail_at = 0;
+        return 1;
+    }
+    return 0;
+}
+
+static PyObject *
+verif_alloc_arm(PyObject *ignored, PyObject *args)
+{
+    long n;
+    if (!PyArg_ParseTuple(args, "l", &n))
+        return NULL;
+    verif_alloc_count = 0;
+    verif_alloc_fail_at = n;
+    Py_RETURN_NONE;
+}
+
+static PyObject *
+verif_alloc_get_count(PyObject *ignored, PyObject *args)
+{
+    return PyLong_FromLong(verif_alloc_count);
+}
+#endif /* BTREES_VERIF */
+
 static void *
 BTree_Malloc(size_t sz)
 {
     void *r;
 
     ASSERT(sz > 0, "non-positive size malloc", NULL);
+
+#ifdef BTREES_VERIF
+    if (verif_alloc_should_fail())
+    {
+        PyErr_NoMemory();
+        return NULL;
+    }
+#endif
 
     r = malloc(sz);
     if (r)
@@ -471,6 +517,14 @@ BTree_Realloc(void *p, size_t sz)
     void *r;
 
     ASSERT(sz > 0, "non-positive size realloc", NULL);
+
+#ifdef BTREES_VERIF
+    if (verif_alloc_should_fail())
+    {
+        PyErr_NoMemory();
+        return NULL;
+    }
+#endif
 
     if (p)
         r = realloc(p, sz);
@@ -544,6 +598,15 @@ static struct PyMethodDef module_methods[] = {
    "\n"
    "Each element of seq must be an integer set, or convertible to one\n"
    "via the set iteration protocol.  The union returned is an IISet."
+  },
+#endif
+#ifdef BTREES_VERIF
+  {"_verif_alloc_arm", (PyCFunction) verif_alloc_arm, METH_VARARGS,
+   "_verif_alloc_arm(n)\nreset the allocation counter and make the n-th "
+   "allocation from now fail (0 disarms)"
+  },
+  {"_verif_alloc_count", (PyCFunction) verif_alloc_get_count, METH_NOARGS,
+   "_verif_alloc_count()\nallocations seen since the counter was last reset"
   },
 #endif
   {NULL,                NULL}           /* sentinel */
